@@ -29,11 +29,33 @@ def run(ctx, out):
     # every 4th record with a 2-3x finer water level series, outages and mostly an island of readings between two
     # outages (stored data-interval numbers with a hole); own stream, the records are otherwise unchanged
     recs_cl = G.fine_share(recs_cl, C.rng_for(seed, PROP, 'fine'))
-    K.check_cl(recs_cl, out, KEEP, PROP, 'cl')
+    # every 5th record dated where epochs leave the 32-bit range (around 2038 / 2106 / 1901, centuries away); own stream
+    recs_cl = G.far_share(recs_cl, C.rng_for(seed, PROP, 'far'))
+    # environment stage: two records once more through load + classify in a child process (python -O, one other variant)
+    recs_env = K.env_records(recs_cl[1:], C.rng_for(seed, PROP, 'env'), seed, n_opt=1, n_other=1)
+    K.check_cl(recs_cl + recs_env, out, KEEP, PROP, 'cl')
+    # LARGE-INPUT stage, oracle only: chains of thousands of links, some links flipped / cut (independent chains of
+    # random lengths): the recorded matching must have no blocking pair however long the displacement chains are
+    rng_b = C.rng_for(seed, PROP, 'large')
+    sizes = [rng_b.randrange(1500, 3000) for _ in range(5 if tier == 'quick' else 15)]
+    K.check_gs_large(K.chain_graph_specs(rng_b, sizes), out, KEEP, PROP)
+    big = [G.gen_chain_spec(rng_b, rng_b.randrange(1200, 2000), cut=c) for c in ([0.01] if tier == 'quick' else [0.0, 0.01, 0.05])]
+    # one storm / one rise of 1100+ steps with dozens of candidates whose durations differ by a step and whose start
+    # offsets differ by thousands of steps
+    for which in ['storm', 'rise', 'storm', 'storm', 'storm'] * (1 if tier == 'quick' else 4):
+        big.append(G.gen_span_spec(rng_b, rng_b.randrange(3000, 8000), which, width=rng_b.choice([2, 4, 8])))
+    K.check_ms(big, out, KEEP, PROP, 'ms_large', coq=False)
+    K.check_cl([G.gen_span_spec(rng_b, rng_b.randrange(2500, 5000), w) for w in (['storm'] if tier == 'quick' else ['storm', 'rise', 'storm'])],
+               out, KEEP, PROP, 'cl_large', coq=False)
     out.rule = ('GS: random bipartite graphs (half with ties in the rises\' preferences) through '
                 'find_stable_matching, compared with the model under 3 schedules (strict) or with the set of all '
                 'model outcomes over all schedules (ties, small graphs); MS/CL: records with chains and long '
-                'rises/storms. Oracle: blocking pairs by brute force, under the code\'s keys (must be none) and '
+                'rises/storms; every 5th CL record dated beyond the 32-bit range of epochs; two records once more in a '
+                'child process (python -O, one other environment variant); LARGE-INPUT stage, oracle only (not sent to Coq): '
+                'chain graphs of 1500-3000 links through find_stable_matching and a record with a chain of 1200+ storms '
+                'through match_storms; records of 2500-6000 samples holding ONE storm (or one rise) of 1100+ steps with dozens of '
+                'candidate rises (storms) of nearly equal durations at start offsets thousands of steps apart, through '
+                'match_storms and the CLI. Oracle: blocking pairs by brute force, under the code\'s keys (must be none) and '
                 'under recorded durations (known finding). Non-trivial: contention (a storm or rise with >= 2 '
                 'candidates) and >= 1 recorded pair.')
     out.samples = [dict(level='GS', cands=str(graphs[0][0]), prefs=str(graphs[0][1])), dict(level='MS', record=recs[1])]
